@@ -20,6 +20,8 @@ Correspondence: the same `resp` lines as C12 on the damaged wire (model-decodabl
 """
 from __future__ import annotations
 
+import re
+
 import zlib
 
 import zstandard as zstd
@@ -310,6 +312,17 @@ class C13(Prop):
             yield c
 
     # ---------------------------------------------------------------- execution
+    @staticmethod
+    def canon_line(case, line):
+        """`tell()` after a DecodeError counts how many raw bytes had been pulled in when the C library
+        noticed the corruption; zlib / zstd may notice a damaged header or checksum one network segment
+        earlier or later than the stored-block reference decoders of the model (decoder internals are
+        trusted, DESIGN §5) — so the position is not compared once a decode error was raised.  Found by the
+        thorough tier on the unchanged tree (corrupt 'zstd, gzip' body, seg=3: tell 31 vs 34)."""
+        if "!DecodeError" in line:
+            return re.sub(r"tell=\d+", "tell=*", line)
+        return line
+
     def execute(self, case, res):
         run = drive(case, second_request=True)
         verdict, level, why = classify(case)
